@@ -156,6 +156,49 @@ pub fn run(tier: Tier) -> i32 {
                 });
                 continue;
             }
+            // init_connid_counter() again in the middle starts the statistics afresh: only the lines
+            // after it count
+            if seq.len() >= 2 {
+                for k in 1..seq.len() {
+                    let mut sl = vec![0u64; rd.nl];
+                    let mut sr = vec![0u64; rd.nr];
+                    for &i in &seq[k..] {
+                        let (l, r) = per[i].as_ref().unwrap();
+                        for (a, b) in sl.iter_mut().zip(l) {
+                            *a += b;
+                        }
+                        for (a, b) in sr.iter_mut().zip(r) {
+                            *a += b;
+                        }
+                    }
+                    let res2 = guard(|| {
+                        let mut w = t.new_worker();
+                        w.init_connid_counter();
+                        for (j, &i) in seq.iter().enumerate() {
+                            if j == k {
+                                w.init_connid_counter();
+                            }
+                            w.reset_sentence(SENTS[i]);
+                            w.tokenize();
+                            w.update_connid_counts();
+                        }
+                        w.compute_connid_probs()
+                    });
+                    st.count("sequences_with_a_second_init");
+                    let ok = match &res2 {
+                        Ok((l2, r2)) => same_probs(l2, &expected_probs(&sl)) && same_probs(r2, &expected_probs(&sr)),
+                        Err(_) => false,
+                    };
+                    if !ok {
+                        st.violation(Finding {
+                            class: "statistics-survive-a-second-init".into(),
+                            what: format!("init_connid_counter() again before line {k}: statistics {:?}, the lines after it give {:?} / {:?} [{} ignore_space={ig} lines {:?}]", res2, expected_probs(&sl), expected_probs(&sr), u.name, seq.iter().map(|&i| SENTS[i]).collect::<Vec<_>>()),
+                            replay: case(),
+                        });
+                        break;
+                    }
+                }
+            }
             // the id lists are accepted by the map tool's entry point and the mapped dictionary
             // tokenizes identically
             if seq.len() <= 2 || st.states % 5 == 0 {
@@ -202,7 +245,7 @@ pub fn run(tier: Tier) -> i32 {
             }
         }
     });
-    rep.rule = format!("state = (dictionary, ignore_space, sequence of <= {depth} lines from a 7-line set incl. empty and space-only lines) fed through the reorder tool's protocol reset/tokenize/update on one worker; the produced statistics must equal those computed from the reference lattice (one count per (predecessor, node) pair plus EOS), sorted by frequency then id; the id lists are fed to map_connection_ids_from_iter and the mapped dictionary compared on all sentences <= 4 chars; distinct = distinct statistics");
+    rep.rule = format!("state = (dictionary, ignore_space, sequence of <= {depth} lines from an 8-line set incl. empty and space-only lines and a word reaching into trailing spaces; also with a second init_connid_counter() before each line k) fed through the reorder tool's protocol reset/tokenize/update on one worker; the produced statistics must equal those computed from the reference lattice (one count per (predecessor, node) pair plus EOS), sorted by frequency then id; the id lists are fed to map_connection_ids_from_iter and the mapped dictionary compared on all sentences <= 4 chars; distinct = distinct statistics");
     rep.bounds = json!({"max_lines": depth, "line_set": SENTS, "universes": us.len()});
     rep.finish(
         st,
@@ -213,6 +256,7 @@ pub fn run(tier: Tier) -> i32 {
             "sequences_with_trailing_space_under_ignore_space",
             "mappings_fed_to_map_connection_ids",
             "statistics_on_an_already_mapped_dictionary",
+            "sequences_with_a_second_init",
         ],
     )
 }
